@@ -167,6 +167,17 @@ func (i *Interp) eqv(x, y value) *Term {
 		if yf, ok := y.(*ssa.Function); ok && yf == nil {
 			return TBool(false)
 		}
+	case *nativeFn:
+		if yf, ok := y.(*ssa.Function); ok && yf == nil {
+			return TBool(xf == nil)
+		}
+		return TBool(false)
+	}
+	if yn, ok := y.(*nativeFn); ok {
+		if xf, ok := x.(*ssa.Function); ok && xf == nil {
+			return TBool(yn == nil)
+		}
+		return TBool(false)
 	}
 	return equals(x, y)
 }
